@@ -24,3 +24,9 @@ Proof.
   destruct (String.eqb s "fail") eqn:E1; [apply String.eqb_eq in E1; contradiction|].
   destruct (String.eqb s "warn") eqn:E2; [apply String.eqb_eq in E2; contradiction|]. reflexivity.
 Qed.
+
+(* audit(): `program_retval = exitcodes.GOOD if evaluate_policy(...) else exitcodes.FAILURE`, translated from the current source; the translator also checks
+   that evaluate_policy() ends in a single `return passed` at the level of the function body and that `passed` is the verdict of Policy.evaluate *)
+From VProofs Require Import RatingProofs.
+Lemma tie_policy_exit : forall passed, policy_exit passed = src_policy_exit passed.
+Proof. reflexivity. Qed.
